@@ -12,7 +12,7 @@ PROPERTY = "C17"
 
 META = {
     "bounds": {
-        "quick": "5 base programs (one holding the same operand texts, valid, in an earlier scope) x every insertion line x 11 error kinds x 5 kinds of symbolic preamble (2 symbolic characters) x {main file, included file}",
+        "quick": "5 base programs (one holding the same operand texts, valid, in an earlier scope) x every insertion line x 11 error kinds x 6 kinds of symbolic preamble (0-2 symbolic characters) x {main file, included file}",
         "thorough": "same with 3 symbolic characters and two preambles stacked",
     },
     "outside": ["wording of the messages", "parser syntax errors (not in the property's list)", "preambles longer than the bound"],
@@ -86,7 +86,7 @@ def jobs(tier, seed):
     for bi, base in enumerate(BASES):
         for pt in insertion_points(base):
             for ek in ERRORS:
-                for pre in ("linecomment", "blockcomment", "blank", "blockcomment-sameline", "number-at-eol"):
+                for pre in ("linecomment", "blockcomment", "blank", "blockcomment-sameline", "number-at-eol", "blockcomment-empty"):
                     for where in ("main", "included"):
                         if bi == 4 and (not ek.startswith("undef") or pre not in ("linecomment", "blank")):
                             continue
@@ -124,6 +124,9 @@ def preamble(spec, cx):
         return [ord(c) for c in ".db 1, "] + [cx.char("c0", dig), 10] + [ord(c) for c in "lda #"] + [cx.char("c1", dig), 10]
     if pre == "linecomment":
         return [ord(";")] + [cx.char(f"c{i}", NONL) for i in range(n)] + [10]
+    if pre == "blockcomment-empty":
+        # `/**/` and a one-character body, on the statement's own line
+        return block("c", 0, [32]) + block("d", 1, [32])
     if pre == "blockcomment":
         return block("c", n, [10])
     if pre == "blockcomment-sameline":
